@@ -74,9 +74,10 @@ Definition parse_int (l : bytes) : res Z :=
 Definition wrap (z : Z) : Z := (z + 2 ^ 63) mod 2 ^ 64 - 2 ^ 63.
 
 (* make([]byte, 0, n) *)
-Definition max_cap : Z := 2 ^ 47.
+(* getNatural refuses to write more than max_cap digits (fix: commit for huge exponents) *)
+Definition max_cap : Z := 2 ^ 24.
 Definition make_bytes (n : Z) : res unit :=
-  if (n <? 0) || (n >? max_cap) then Panic MakesliceRange else Ok tt.
+  if (n <? 0) || (n >? max_cap) then Err 1711 else Ok tt.
 
 Definition zeros (n : Z) : bytes := repeat 48%N (Z.to_nat n).
 Fixpoint append_digits (from : bytes) : bytes :=
